@@ -176,6 +176,16 @@ func (dec *Decoder) decodeWithPool(data []byte) (*DecodeResult, error) {
 	return res, nil
 }
 
+// emptyResult returns a pooled DecodeResult that holds no field data, i.e. the result of decoding
+// an empty message
+func (dec *Decoder) emptyResult() (*DecodeResult, error) {
+	res, ok := dec.pool.Get().(*DecodeResult)
+	if !ok {
+		return nil, fmt.Errorf("invalid decoder")
+	}
+	return res, nil
+}
+
 // newBaseResult creates a new DecodeResult object based on the given definition
 // all other initialization of this DecodeResult is done by cloning the resulting object
 func (dec *Decoder) newBaseResult(def Def) (*DecodeResult, error) {
